@@ -74,6 +74,8 @@ func (o Op) String() string {
 		s += "(" + sc + ")"
 	case "pause", "resume", "cancel":
 		s += fmt.Sprintf("(w%d)", o.W)
+	case "stall":
+		s += fmt.Sprintf("(%dms)", o.V)
 	}
 	if o.Sync {
 		s += "!"
@@ -105,6 +107,23 @@ func genCase(kind string) func(t *rapid.T) Case {
 		nwatch := make([]int, c.Clients)
 		payload := 0
 		next := func() int { payload++; return payload }
+		if stallMix(rapid.Uint64().Draw(t, "stalledcancel"))%80 == 0 {
+			// a consumer that is slow for longer than a second of REAL time (a stalled client, a long pause) while
+			// another watch of the same record is cancelled: the store's pump holds the cancelled watch's channel
+			// when the cancel arrives and gets to it only after the stall
+			k := rapid.IntRange(0, c.Keys-1).Draw(t, "stallkey")
+			c.Ops = append(c.Ops, Op{C: 0, T: "create", K: k, V: next(), Sync: true},
+				Op{C: 0, T: "watch", K: k, One: rapid.Bool().Draw(t, "slowone"), Rep: rapid.Bool().Draw(t, "slowreplay"), Sync: true},
+				Op{C: 1, T: "watch", K: k, One: rapid.IntRange(0, 3).Draw(t, "cancelledone") != 0, Rep: rapid.Bool().Draw(t, "cancelledreplay"), Sync: true},
+				// two writes: the slow watch's own goroutine takes the first event and waits for its consumer, the
+				// store-wide pump then waits with the second one
+				Op{C: 0, T: "pause", W: 0}, Op{C: 0, T: "get", K: k}, Op{C: 0, T: "upstatus", K: k, V: next()},
+				Op{C: 0, T: "get", K: k}, Op{C: 0, T: "upstatus", K: k, V: next()},
+				Op{C: 1, T: "cancel", W: 0}, Op{C: 1, T: "stall", V: 1200}, Op{C: 0, T: "resume", W: 0, Sync: true})
+			created[k], holds[0][k] = true, true
+			nwatch[0]++
+			nwatch[1]++
+		}
 		for len(c.Ops) < n {
 			cl := rapid.IntRange(0, c.Clients-1).Draw(t, "client")
 			k := rapid.IntRange(0, c.Keys-1).Draw(t, "key")
@@ -176,6 +195,14 @@ func genCase(kind string) func(t *rapid.T) Case {
 		}
 		return c
 	}
+}
+
+// stallMix scrambles a drawn word (rapid prefers small integers, which would make a "1 in n" draw far more frequent).
+func stallMix(z uint64) uint64 {
+	z += 0x9e3779b97f4a7c15
+	z = (z ^ (z >> 30)) * 0xbf58476d1ce4e5b9
+	z = (z ^ (z >> 27)) * 0x94d049bb133111eb
+	return z ^ (z >> 31)
 }
 
 // ---- reference model ----------------------------------------------------------
@@ -475,6 +502,12 @@ func (w *world) step(i int, o Op) error {
 		err = w.doResume(o)
 	case "cancel":
 		err = w.doCancel(o)
+	case "stall":
+		// real time passes while a consumer is not reading (at most 1.5 s per operation)
+		if o.V > 0 && o.V <= 1500 {
+			w.x.Class("watch:consumer-stalled-for-over-a-second")
+			time.Sleep(time.Duration(o.V) * time.Millisecond)
+		}
 	}
 	if err != nil {
 		return err
